@@ -360,12 +360,76 @@ Definition alloc_sgpd_alst (g : bool) (hs hl : N) (body : list N) : res aout :=
 Definition name_of (bs : list N) : list N := firstn 4 (skipn 4 bs).
 
 Inductive tbox := TbTrun | TbStts | TbCtts | TbStsc | TbStsz | TbStco | TbCo64 | TbStss | TbSdtp | TbSaiz | TbSaio | TbSenc
-                | TbSbgp | TbSubs | TbElst | TbTfra | TbSidx | TbPssh | TbSsix | TbTrefType | TbLeva.
+                | TbSbgp | TbSubs | TbElst | TbTfra | TbSidx | TbSgpd | TbPssh | TbSsix | TbTrefType | TbLeva.
 
 Definition aeqb_name (a b : list N) : bool :=
   match a, b with
   | [a0; a1; a2; a3], [b0; b1; b2; b3] => (a0 =? b0) && (a1 =? b1) && (a2 =? b2) && (a3 =? b3)
   | _, _ => false
+  end.
+
+(* ---- sgpd, the whole entry loop (mp4/sgpd.go DecodeSgpdSR + samplegroupentries.go), repaired text.
+        Entry decoders: seig (20 bytes + optional constant IV), roll (2), rap (1), alst, any other type (ReadBytes).
+        An entry returns (ok, Size(), bytes requested, inner iterations, reader).  The sgpd loop leaves on the first
+        entry error and when Size() differs from the description length.  Fuel: an accepted entry consumes >= 1 byte. ---- *)
+Inductive sgkind := SgSeig | SgRoll | SgRap | SgAlst | SgOther.
+Definition sgkind_of (gt : list N) : sgkind :=
+  if aeqb_name gt [115;101;105;103] then SgSeig else
+  if aeqb_name gt [114;111;108;108] then SgRoll else
+  if aeqb_name gt [114;97;112;32] then SgRap else
+  if aeqb_name gt [97;108;115;116] then SgAlst else SgOther.
+
+Definition sg_entry (k : sgkind) (body : list N) (len1 : N) (s : rd) : bool * N * N * N * rd :=
+  match k with
+  | SgRoll => let s := rd_skip body 2 s in (negb (r_err s), 2, 8, 0, s)
+  | SgRap => let s := rd_skip body 1 s in (negb (r_err s), 1, 8, 0, s)
+  | SgSeig =>
+    let s := rd_skip body 1 (rd_skip body 1 s) in
+    let '(prot, s) := rd_n body 1 s in
+    let '(piv, s) := rd_n body 1 s in
+    let s := rd_skip body 16 s in
+    if (prot =? 1) && (piv =? 0) then
+      let '(civ, s) := rd_n body 1 s in
+      let s := rd_skip body civ s in
+      let size := 21 + (if r_err s then 0 else civ) in
+      if negb (len1 =? size) then (false, size, 64, 0, s) else (negb (r_err s), size, 64, 0, s)
+    else if negb (len1 =? 20) then (false, 20, 64, 0, s) else (negb (r_err s), 20, 64, 0, s)
+  | SgAlst =>
+    match alloc_alst_entry true body len1 s with
+    | Ok (ok, al, it, s) => (ok, 4 + 4 * it, al + 56, it, s)
+    | _ => (false, 0, 0, 0, s)
+    end
+  | SgOther =>
+    let s' := rd_skip body len1 s in
+    (negb (r_err s'), (if r_err s' then 0 else len1), 48, 0, s')
+  end.
+
+Fixpoint sgpd_loop (body : list N) (fuel : nat) (k : sgkind) (v dlen cnt i : N) (s : rd) (al it : N) : res (bool * N * N * N) :=
+  match fuel with
+  | O => OutOfFuel
+  | S f =>
+    if cnt <=? i then Ok (true, i, al, it)
+    else
+      let '(len1, s, al) := if (1 <=? v) && (dlen =? 0) then (let '(l, s) := rd_n body 4 s in (l, s, al + 4)) else (dlen, s, al) in
+      if len1 =? 0 then Ok (false, i, al, it + 1)
+      else
+        let '(ok, size, a, its, s) := sg_entry k body len1 s in
+        if negb ok then Ok (false, i, al + a, it + 1 + its)
+        else if negb (size =? len1) then Ok (false, i, al + a, it + 1 + its)
+        else sgpd_loop body f k v dlen cnt (i + 1) s (al + a + 16) (it + 1 + its)
+  end.
+
+Definition alloc_sgpd (hs hl : N) (body : list N) : res aout :=
+  let '(vf, s) := rd_n body 4 rd0 in
+  let v := version_of vf in
+  let k := sgkind_of (firstn 4 (skipn 4 body)) in
+  let s := rd_skip body 4 s in
+  let '(dlen, s) := if 1 <=? v then rd_n body 4 s else (0, s) in
+  let s := if 2 <=? v then rd_skip body 4 s else s in
+  let '(cnt, s) := rd_n body 4 s in
+  match sgpd_loop body (S (length body)) k v dlen cnt 0 s 0 0 with
+  | Ok (ok, n, al, it) => Ok (mkO (ok && negb (r_err s)) n al it)
+  | Err => Err | Panic => Panic | OutOfFuel => OutOfFuel
   end.
 
 Definition tbox_of (nm : list N) : option tbox :=
@@ -386,6 +450,7 @@ Definition tbox_of (nm : list N) : option tbox :=
   if aeqb_name nm [101;108;115;116] then Some TbElst else
   if aeqb_name nm [116;102;114;97] then Some TbTfra else
   if aeqb_name nm [115;105;100;120] then Some TbSidx else
+  if aeqb_name nm [115;103;112;100] then Some TbSgpd else
   if aeqb_name nm [112;115;115;104] then Some TbPssh else
   if aeqb_name nm [115;115;105;120] then Some TbSsix else
   if aeqb_name nm [104;105;110;116] then Some TbTrefType else   (* hint; cdsc font hind vdep vplx subt share the decoder *)
@@ -411,6 +476,7 @@ Definition alloc_table (t : tbox) (sr_path : bool) (hs hl : N) (body : list N) :
   | TbElst => alloc_elst hs hl body
   | TbTfra => alloc_tfra hs hl body
   | TbSidx => alloc_sidx hs hl body
+  | TbSgpd => alloc_sgpd hs hl body
   | TbPssh => alloc_pssh hs hl body
   | TbSsix => alloc_ssix hs hl body
   | TbTrefType => alloc_treftype hs hl body
@@ -439,10 +505,7 @@ Definition alloc_box_sr (bs : list N) : option (res aout) :=
   | None => Some rej
   | Some (hs, hl) =>
     match tbox_of (name_of bs) with
-    | None =>
-      if is_sgpd_alst bs hl then
-        if lenN bs <? hs then Some rej else Some (alloc_sgpd_alst true hs hl (skipn (N.to_nat hl) bs))
-      else None
+    | None => None
     | Some t =>
       (* maxSize := remaining + Hdrlen; h.Size > maxSize is an error *)
       if lenN bs <? hs then Some rej
@@ -456,11 +519,7 @@ Definition alloc_box_r (bs : list N) : option (res aout) :=
   | None => Some rej
   | Some (hs, hl) =>
     match tbox_of (name_of bs) with
-    | None =>
-      if is_sgpd_alst bs hl then
-        if lenN bs <? hs then Some rej
-        else Some (alloc_sgpd_alst true hs hl (firstn (N.to_nat (hs - hl)) (skipn (N.to_nat hl) bs)))
-      else None
+    | None => None
     | Some t =>
       if lenN bs <? hs then Some rej
       else Some (alloc_table t false hs hl (firstn (N.to_nat (hs - hl)) (skipn (N.to_nat hl) bs)))
